@@ -89,6 +89,7 @@ fn dispatch(op: &str, fields: &[&str]) -> String
 		"rebuild" => syn_ops::rebuild(fields),
 		"alphaast" => syn_ops::alphaast(fields),
 		"diag" => alpha_ops::diag(fields),
+		"agree" => alpha_ops::agree(fields),
 		"resolved" => alpha_ops::resolved(fields),
 		"lexd" => delta_ops::lexd(fields),
 		"delta" => delta_ops::delta(fields),
